@@ -75,7 +75,9 @@ def mem_sizes(g, kind):
 
 
 def coq_model_terms(prefix, g, kind, moore, plus_one, qinit):
-    """(action term, init term) of the model in the extended arena."""
+    """Term of the GENERATED construction (gen/TransducerGen.v) applied to the
+    generated solver's iterates, in the extended arena:
+    option (action[impl], init[impl]); and the extended arena's sizes."""
     ar = g['ar']
     H, G = mem_sizes(g, kind)
     M = H * G
@@ -85,25 +87,18 @@ def coq_model_terms(prefix, g, kind, moore, plus_one, qinit):
     L = f'(lift {n} {M})'
     p = prefix
     mode = f'{_b(moore)} {_b(plus_one)}'
+    game = (f'({L} {p}E) ({L} {p}S) ({L} {p}EI) ({L} {p}SI) '
+            f'(map {L} {p}P) (map {L} {p}R) {mode} {QNAME[qinit]} {fuel}')
     if kind == 'streett':
         sol = (f'(Gr1Gen.solve_streett_game {n} {p}E {p}S {p}P {p}R {mode} '
                f'{fuel})')
-        act = (f'(fun sol => streett_action {n} {G} ({L} {p}E) ({L} {p}S) '
-               f'(map {L} {p}P) (map {L} {p}R) {mode} '
+        gen = (f'(fun sol => StreettGen.make_streett_transducer {n} {G} {game} '
                f'({L} (fst (fst sol))) (map (map {L}) (snd (fst sol))) '
                f'(map (map (map {L})) (snd sol))) {sol}')
-        init = (f'(fun sol => Gr1Gen.make_init {ne} ({L} {p}EI) ({L} {p}SI) '
-                f'{_b(plus_one)} {QNAME[qinit]} 0 '
-                f'(streett_init_count {n} {G}) ({L} (fst (fst sol)))) {sol}')
     else:
         sol = (f'(Gr1Gen.solve_rabin_game {n} {p}E {p}S {p}P {p}R {mode} '
                f'{fuel})')
-        act = (f'(fun sol => rabin_action {n} {H} {G} ({L} {p}E) ({L} {p}S) '
-               f'(map {L} {p}P) (map {L} {p}R) {mode} '
+        gen = (f'(fun sol => RabinGen.make_rabin_transducer {n} {H} {G} {game} '
                f'(map {L} (fst (fst sol))) (map (map {L}) (snd (fst sol))) '
                f'(map (map (map (map {L}))) (snd sol))) {sol}')
-        init = (f'(fun sol => Gr1Gen.make_init {ne} ({L} {p}EI) ({L} {p}SI) '
-                f'{_b(plus_one)} {QNAME[qinit]} 0 '
-                f'(rabin_init_count {n} {H} {G} (map {L} {p}P)) '
-                f'({L} (last (fst (fst sol)) bfalse))) {sol}')
-    return act, init, ne
+    return gen, ne
